@@ -24,7 +24,7 @@ class Case:
 
 class FnSpec:
     def __init__(self, fid, file, name, sig=None, atoms=('Fq',), cases=None, post=None, extra=None,
-                 prop=(), doc='', max_paths=400, hook=None, oracle=None, pre_num=None, search_max=None):
+                 prop=(), doc='', max_paths=400, hook=None, oracle=None, pre_num=None, search_max=None, loop=None):
         self.fid = fid            # obligation id stem, e.g. 'fq2::mul_inplace'
         self.file = file
         self.name = name          # regex on the normalised short name
@@ -39,6 +39,7 @@ class FnSpec:
         self.hook = hook          # (driver fn name, [arg types], ret type | 'opt:<ty>' | 'bool')
         self.oracle = oracle      # f(Algebra, *args) -> value ; shared by the symbolic post and the numeric replay oracle
         self.search_max = search_max
+        self.loop = loop
         self.pre_num = pre_num    # numeric input filter / shaper for functions with preconditions
 
 class Result:
@@ -131,6 +132,8 @@ def verify_function(funcs, spec, seed=0):
     for case in cases:
         contracts = Contracts(spec.atoms, spec.extra)
         interp = Interp(funcs, contracts, max_paths=spec.max_paths)
+        if getattr(spec, 'loop', None) is not None:
+            interp.loop_specs[func.name] = spec.loop
         facts = Facts()
         st = State(facts)
         try:
@@ -179,7 +182,24 @@ def verify_function(funcs, spec, seed=0):
                                        'args': concrete_args(interp, st2, case, env)}
                         clause_status[oid] = ['refuted', 'path [%s]: residue %r' % (' '.join(st2.trace[-8:]), bad[1]),
                                               time.time() - t1, witness, 1]
-            if npath == 0:
+            for cname, polys, fsnap, tr in interp.side:
+                oid = '%s/%s/%s' % (spec.fid, case.name, cname)
+                bad = None
+                for p_ in polys:
+                    ok, r_ = check_zero(fsnap, p_)
+                    if not ok:
+                        bad = r_
+                        break
+                prev = clause_status.get(oid)
+                if bad is None:
+                    if prev is None:
+                        clause_status[oid] = ['discharged', '', 0.0, None, 1]
+                    else:
+                        prev[4] += 1
+                else:
+                    clause_status[oid] = ['refuted', 'path [%s]: residue %r' % (' '.join(tr[-8:]), bad), 0.0, None, 1]
+            interp.side = []
+            if npath == 0 and spec.loop is None:
                 res.add('%s/%s/vacuity' % (spec.fid, case.name), 'undecided', 'no feasible path for this spec case')
         except Unsupported as u:
             res.add('%s/%s/support' % (spec.fid, case.name), 'undecided', 'unsupported: %s' % (u,))
